@@ -473,3 +473,21 @@ class KindFlagEval:
                             is_ok = body.get("k") == "Call" and (F.path_def(body["f"]) or "").endswith("Ok")
                             val = _and3(val, is_ok)
         return val
+
+
+def tests_opcode_type(fx, body, ty):
+    """Does `body` test a dynamic opcode for being exactly `ty`: `as_any().is::<ty>()` / `downcast_ref::<ty>()`, directly or
+    through a local generic helper instantiated with `ty` whose body performs that test on its type parameter?"""
+    from . import facts as F
+
+    TESTS = ("downcast_ref", "is", "downcast", "downcast_mut")
+    for c, _ in F.calls(body["hir"]["value"]):
+        full = F.callee(c) or ""
+        last = F.strip_generics(full).split("::")[-1]
+        if ty in full and last in TESTS:
+            return True
+        if ty in full:
+            hb = fx.body(F.strip_generics(full)) or fx.body(F.callee_def(c) or "")
+            if hb is not None and hb.get("hir") and any(F.strip_generics(F.callee(c2) or "").split("::")[-1] in TESTS for c2, _ in F.calls(hb["hir"]["value"])):
+                return True
+    return False
